@@ -347,7 +347,7 @@ Print Assumptions band_det_spec_partial.
 (* ---- the pre-repair pivot rule (signed comparison, unconditional division) is refuted by the committed witness.
    Exact tier here; the binary64 half ([[-2,1],[1e-20,1]] x = [-1,1]: legacy answers [0,1], repaired [1,1]) is
    Legacy.C04Refuted.band_pivot_legacy_refuted, compiled with this file (its Print Assumptions lists the
-   primitive-float operations, which the closed-theorem audit of this file does not admit). ---- *)
+   primitive-float operations, which the closed-theorem audit of this file does not allow). ---- *)
 Theorem band_pivot_legacy_refuted_exact :
   @band_solve_legacy AQ wit_q [q 0 1; q 1 1] = Panic DivZero /\
   @band_solve AQ wit_q [q 0 1; q 1 1] = Ok [q 1 1; q 1 1] /\
